@@ -70,4 +70,12 @@ TEXT = {
  'note': "Trusted: testing/synctest's virtual clock; refwire's timeout grammars. All three sub-checks are black-box (no unexported identifiers).",
  'technique': 'property-based testing (rapid) in synctest bubbles: exact two-sided bounds on the encoded timeout, exact deadline equality on decode, rejection '
               'oracle for malformed strings'},
+    'C09': {'text': 'Exploration: generated (N, protocol, codec, kind, side, position) with probes built to exact encoded sizes N−1/N/N+1/2N/≫N, compression bombs (wire '
+         '≤ N < decompressed), fat-wire messages (decompressed ≤ N < wire), and lying length prefixes; oracle is a non-delivery model plus the refusal code. A '
+         'separate enumeration measures allocation for N ∈ {4 KiB, 64 KiB, 1 MiB} against bombs of 64N+32 MiB and lying prefixes up to 2^32−1.',
+ 'design_ref': 'DESIGN.md §5 C09',
+ 'note': "Trusted: refwire-built frames with exact sizes; the harness's own gzip/zlib/deflate/toy compressors. N = 0 (unlimited) and the buffering of non-200 "
+         'error bodies are outside the domain.',
+ 'technique': 'property-based testing (rapid): exact-size probes against a non-delivery model; measured allocation bound (TotalAlloc) for bombs and lying '
+              'prefixes'},
 }
